@@ -126,6 +126,14 @@ def generate(rng, tier):
                                 'parse_file 0 ' + hx(b'~nouser/y.conf'), 'parse_file 0 ' + hx(b'~nouser'), 'parse_buf 0 ' + hx(b'include("~")\n'),
                                 'parse_buf 0 ' + hx(b'include("~/none.conf")\n')]),
         ('tilde-no-passwd', ['parse_buf 0 ' + hx(b'include("~nouser/x.conf")\n'), 'parse_file 0 ' + hx(b'~/y.conf'), 'tilde ' + hx(b'~zz')]),
+        # the built-in diagnostic printer (no error function installed) echoes input text: it is data, never a format
+        ('default-printer!', ['errfunc 0 2', 'parse_buf 0 ' + hx(b'a%s%s%s%s%s%s%n = 1\n'), 'parse_buf 0 ' + hx(b'i = %n%n%s%s%s\n'),
+                              'parse_buf 0 ' + hx(b'include("%s%s%s%n%s%s/x.conf")\n'), 'parse_buf 0 ' + hx(b'sec { %s%s%s%s%s%s%s%s }\n'),
+                              'parse_buf 0 ' + hx(b'i = 1 %d%c%ls%s%s%s%s%s\n'), 'errfunc 0 0']),
+        # a titled section replaced by a second one of the same title, in a context with a search path, then the path is used
+        ('replace-titled-searchpath', ['file %s file %s' % (hx(b'sp/inc.conf'), hx(b'i = 3\n')), 'searchpath 0 ' + hx(b'sp'),
+                                       'parse_buf 0 ' + hx(b't x { a = 1 }\nt x { a = 2 in q { } }\ninclude("inc.conf")\nt x { }\n'),
+                                       'parse_buf 0 ' + hx(b'include("inc.conf")\nt y { }\nt y { include("inc.conf") }\n'), 'lookup 0 ' + hx(b'inc.conf')]),
         ('null-buffer', ['parse_buf 0 -']),
         ('empty-buffer', ['parse_buf 0 .']),
     ]
@@ -138,7 +146,10 @@ def generate(rng, tier):
             lines += cmds
             after = len(lines)
             lines += ['dump 0', 'print 0 0', 'parse_buf 0 ' + hx(VALID), 'dump 0', 'free 0']
-            yield Scn('sp%d-%s' % (n, name), lines, {'class': 'special/' + name, 'first': first, 'big': False, 'text': b'', 'after': after})
+            meta = {'class': 'special/' + name.rstrip('!'), 'first': first, 'big': False, 'text': b'', 'after': after}
+            if name.endswith('!'):
+                meta['impl_only'] = True        # the model has no built-in printer
+            yield Scn('sp%d-%s' % (n, name.rstrip('!')), lines, meta)
 
 
 def nontrivial(scn, il):
